@@ -53,6 +53,22 @@ type scenario struct {
 	// producerWaits: the streaming callback waits for its next batch or for the end of its
 	// context, whichever comes first (a producer fed from a channel).
 	producerWaits bool
+	// revisions announced by the two sides (0 = 54460): the exchange runs at the lower one
+	clientRev, serverRev int
+}
+
+// drawGatedRevs: mostly the current revision on both sides, otherwise one side lower - at or
+// just below the revisions where a response packet changes its layout.
+func drawGatedRevs(rt *rapid.T, sc *scenario) {
+	low := rapid.SampledFrom([]int{0, 0, 0, 54459, 54458, 54454, 54453, 54451}).Draw(rt, "lower-revision")
+	if low == 0 {
+		return
+	}
+	if rapid.Bool().Draw(rt, "client-is-lower") {
+		sc.clientRev = low
+	} else {
+		sc.serverRev = low
+	}
 }
 
 var scenarioNames = []string{"select", "insert", "stream-insert"}
@@ -103,9 +119,16 @@ func (g *gatedRun) cb(name string) error {
 func newGatedRun(rt *rapid.T, sc scenario, serverItems func(g *gatedRun) []simnet.Step) *gatedRun {
 	g := &gatedRun{rt: rt, sc: sc, failCbAt: -1, cbErr: fmt.Errorf("callback failure"), ranAfter: map[string]bool{}, doneCh: make(chan struct{}), batchReady: make(chan struct{})}
 	g.sched = &simnet.Sched{}
-	g.e = newEnv(54460)
+	if sc.clientRev == 0 {
+		sc.clientRev = 54460
+	}
+	if sc.serverRev == 0 {
+		sc.serverRev = 54460
+	}
+	g.sc = sc
+	g.e = newEnv(sc.serverRev)
 	g.e.conn.Sched = g.sched
-	opt := baseOptions(54460, sc.comp)
+	opt := baseOptions(sc.clientRev, sc.comp)
 	opt.ReadTimeout = sc.readTO
 	client, err := g.e.connect(context.Background(), opt)
 	if err != nil {
